@@ -109,6 +109,8 @@ class Contents:
     def data(self, cid):
         pad = [0, 3, 700, 1500, 3000][cid % 5]
         b = (b"c%d;" % cid) + b"x" * pad
+        if cid == 5:
+            b = b""                 # the empty file
         self.by_bytes[b] = cid
         return b
 
@@ -295,8 +297,8 @@ class Recorder:
         self.events = []
         self.step = 0
 
-    def ev(self, kind, **kw):
-        d = {"ev": kind}
+    def ev(self, _evname, **kw):
+        d = {"ev": _evname}
         d.update(kw)
         self.events.append(d)
         return d
@@ -352,7 +354,7 @@ class System:
     """Two MockFS accounts, engine providers + user providers, one CloudSync, a recorder."""
 
     def __init__(self, flavor="oid/oid", storage="mock", resolver=None, aging=0.0, smart=False, prioritize=None,
-                 roots=("local", "remote"), translate=None):
+                 roots=("local", "remote"), translate=None, whole=False, root_by_oid=False, decline=None):
         import_repo()
         self.clk = VClock()
         install_clock(self.clk)
@@ -371,7 +373,21 @@ class System:
         self.resolver = resolver
         self.prioritize = prioritize
         self.translate = translate
+        self.whole = whole              # project the whole account, not only the sync root (C12)
+        self.root_by_oid = root_by_oid
+        self.decline = decline          # path codes of a subfolder the application's translate() declines
+        if decline:
+            dec = decline
+
+            def _tr(cs_self, side, path, _dec=dec):
+                enc = self.names.encode(1 - side, path)
+                if enc[:len(_dec)] == _dec:
+                    return None
+                return type(cs_self).__mro__[1].translate(cs_self, side, path)
+            self.translate = _tr
         self.notes = []
+        self._oidnums = [{}, {}]
+        self.cur_mgr = ""
         self.resolve_calls = []
         fl = FLAVORS[flavor]
         self.eng = [make_engine_provider(self, s, *fl[s]) for s in (0, 1)]
@@ -394,12 +410,46 @@ class System:
         self.escaped = []
 
     # ---- construction of the engine ------------------------------------------------------------------
+    def oidnum(self, side, oid):
+        if oid is None:
+            return 0
+        d = self._oidnums[side]
+        if oid not in d:
+            d[oid] = len(d) + 1
+        return d[oid]
+
+    def _traced_classes(self):
+        """Subclasses of the engine's own classes that log intake and the entry being synchronised (no source hooks)."""
+        from cloudsync.sync.state import SyncState
+        from cloudsync.sync.manager import SyncManager
+        from cloudsync.smartsync import SmartSyncState, SmartSyncManager
+        sysobj = self
+        SBase = SmartSyncState if self.smart else SyncState
+        MBase = SmartSyncManager if self.smart else SyncManager
+
+        class TracedState(SBase):
+            def update(self, side, otype, oid, path=None, hash=None, exists=True, prior_oid=None, **kw):
+                if sysobj.cur_mgr in ("EL", "ER"):       # called by the event manager: the engine is being notified
+                    sysobj.rec.ev("Intake", side=side, oid=sysobj.oidnum(side, oid),
+                                  prior=sysobj.oidnum(side, prior_oid) if prior_oid and prior_oid != oid else 0,
+                                  now=int(sysobj.clk.t * 1000) % 100000000, exists=1 if exists else 0)
+                return SBase.update(self, side, otype, oid, path=path, hash=hash, exists=exists, prior_oid=prior_oid, **kw)
+
+        class TracedSync(MBase):
+            def _sync_one_entry(self, sync):
+                sysobj.rec.ev("SyncEntry", oids=[sysobj.oidnum(0, sync[0].oid), sysobj.oidnum(1, sync[1].oid)],
+                              neg=1 if sync.priority < 0 else 0, now=int(sysobj.clk.t * 1000) % 100000000,
+                              changed=[int((sync[0].changed or 0) * 1000) % 100000000, int((sync[1].changed or 0) * 1000) % 100000000])
+                return MBase._sync_one_entry(self, sync)
+
+        return TracedState, TracedSync
+
     def start_engine(self):
         from cloudsync import CloudSync
         from cloudsync.event import EventManager
         from cloudsync.smartsync import SmartCloudSync
         sysobj = self
-        base = SmartCloudSync if self.smart else CloudSync
+        base = CloudSync
 
         class CS(base):
             def handle_notification(self, n):
@@ -425,10 +475,24 @@ class System:
                     p.reconnect()
                 finally:
                     self.in_user = False
+        root_oids = None
+        if self.root_by_oid:
+            self.in_user = True
+            try:
+                root_oids = tuple(self.eng[s].info_path(self.roots[s]).oid for s in (0, 1))
+            finally:
+                self.in_user = False
+        TS, TM = self._traced_classes()
+        kw = {}
         if self.smart:
-            self.cs = CS(tuple(self.eng), self.roots, self.storage, sleep=None)
-        else:
-            self.cs = CS(tuple(self.eng), self.roots, self.storage, sleep=None)
+            from cloudsync.smartsync import SmartEventManager
+            kw["emgr_class"] = SmartEventManager
+            for name in ("register_auto_sync_callback", "_get_smartinfo", "_sync_one_entry", "_smart_unsync_ent", "smart_unsync_oid",
+                         "smart_unsync_path", "_smart_sync_ent", "smart_sync_oid", "smart_sync_path", "smart_listdir_path",
+                         "_ensure_path_remote", "smart_info_path", "smart_info_oid", "smart_delete_path", "smart_rename"):
+                setattr(CS, name, SmartCloudSync.__dict__[name])
+        self.cs = CS(tuple(self.eng), self.roots, self.storage, sleep=None, root_oids=root_oids,
+                     state_class=TS, smgr_class=TM, **kw)
         self.cs.aging = self.aging
         self.stopped = False
         return self.cs
@@ -475,10 +539,11 @@ class System:
         raise MachineryError("unknown resolver behaviour %r" % (r,))
 
     # ---- projection -------------------------------------------------------------------------------------
-    def tree(self, side, whole=False):
+    def tree(self, side, whole=None):
         """[[path codes], cell] pairs of everything under the root (or the whole account)."""
         prov = self.usr[side]
         out = []
+        whole = self.whole if whole is None else whole
         start = "/" if whole else self.roots[side]
         info = prov.info_path(start)
         if not info:
@@ -500,7 +565,7 @@ class System:
         out.sort()
         return out
 
-    def trees(self, whole=False):
+    def trees(self, whole=None):
         return [self.tree(0, whole), self.tree(1, whole)]
 
     # ---- user operations -----------------------------------------------------------------------------------
@@ -547,6 +612,7 @@ class System:
         self.rec.ev("StepBegin", mgr=name, step=self.rec.step)
         n0 = len(self.rec.events)
         out = "ok"
+        self.cur_mgr = name
         try:
             fn()
         except _BackoffError:
@@ -558,11 +624,24 @@ class System:
             out = "escape"
             self.escaped.append((name, type(e).__name__, str(e)[:100]))
             self.rec.ev("Escape", mgr=name, step=self.rec.step, exc=type(e).__name__)
+        self.cur_mgr = ""
+        self.pump_notifications()
         if len(self.rec.events) > n0 or out != "ok":   # something observable happened: log the step and the trees
             self.rec.ev("StepEnd", mgr=name, step=self.rec.step, out=out, post=self.trees())
         else:                                          # an idle step leaves no line at all
             del self.rec.events[n0 - 1:]
         return out
+
+    def pump_notifications(self):
+        """Deliver what the engine queued for the application (the notification service's own loop body)."""
+        q = getattr(self.cs.nmgr, "_NotificationManager__queue")
+        n = 0
+        while q.qsize() > 0 and n < 1000:
+            n += 1
+            try:
+                self.cs.nmgr.do()
+            except Exception as e:      # the handler is ours and does not raise
+                raise MachineryError("notification delivery failed: %r" % (e,))
 
     def intake(self, side, k=0):
         self.eng[side].max_events = k
@@ -627,11 +706,13 @@ class System:
             for s in (0, 1):
                 self.usr[s].mkdir(self.roots[s])
             for path, cell in sorted(base):
-                p = self.names.decode(side, path)
-                if cell == DIR:
-                    self.usr[side].mkdir(p)
-                else:
-                    self.usr[side].create(p, io.BytesIO(self.contents.data(cell)))
+                # objects outside the sync root exist on both accounts (separate copies); inside: on `side` only
+                for sd in ((side,) if path[0] == ROOT else (0, 1)):
+                    p = self.names.decode(sd, path)
+                    if cell == DIR:
+                        self.usr[sd].mkdir(p)
+                    else:
+                        self.usr[sd].create(p, io.BytesIO(self.contents.data(cell)))
         finally:
             self.in_user = False
 
@@ -643,9 +724,10 @@ class System:
         del self.rec.events[n0:]           # the initial sync is not part of the validated trace
         self.rec.step = 0
         t = self.trees()
-        if not ok or t[0] != t[1]:
+        vis = [[e for e in x if not (self.decline and e[0][:len(self.decline)] == self.decline)] for x in t]
+        if not ok or vis[0] != vis[1]:
             raise MachineryError("base tree did not synchronise: %r" % (t,))
-        self.rec.ev("Base", post=t, flavor=self.flavor)
+        self.rec.ev("Base", post=t, flavor=self.flavor, aging_ms=int(self.aging * 1000))
         return t
 
     # ---- stop / restart ---------------------------------------------------------------------------------------------
@@ -678,50 +760,65 @@ class System:
     def run_tokens(self, tokens):
         for tok in tokens:
             k = tok[0]
-            try:
-                if k == "U":
-                    self.user(tok[1], tok[2])
-                elif k == "EL":
-                    self.intake(0, tok[1] if len(tok) > 1 else 0)
-                elif k == "ER":
-                    self.intake(1, tok[1] if len(tok) > 1 else 0)
-                elif k == "S":
-                    self.sync()
-                elif k == "T":
-                    self.tick(tok[1])
-                elif k == "Q":
-                    self.quiesce()
-                elif k == "X":
-                    self.stop_engine()
-                elif k == "R":
-                    self.restart(tok[1] if len(tok) > 1 else "intact")
-                elif k == "F":
-                    self.inj = {"n": 0, "nmut": 0, "fail_at": tok[1], "kind": tok[2]}
-                elif k == "K":
-                    self.inj = self.inj or {"n": 0, "nmut": 0}
-                    if tok[1] == "storage":
-                        self.inj["crash_before_sw"] = (self.storage.nwrites if self.storage else 0) + tok[2]
-                    else:
-                        self.inj["crash_after_pw"] = self.inj["nmut"] + tok[2]
-                elif k == "C":
-                    cp = self.names.decode(tok[1], tok[2])
-                    co = self.eng[tok[1]]._mock_fs.get(self.eng[tok[1]].normalize_path(cp))
-                    if co is not None and co.exists and co.contents is not None:
-                        self.eng[tok[1]].corrupt_paths[cp] = co.contents
-                    self.rec.ev("Corrupt", side=tok[1], path=tok[2])
-                elif k == "AQ":
-                    self.after_quiet()
-                else:
-                    raise MachineryError("unknown token %r" % (tok,))
-            except Crash:
-                self.rec.ev("Crash", step=self.rec.step, post=self.trees())
-                self.stopped = True
-                self.in_user = True
+            while True:
                 try:
-                    self.cs.done()
-                except Exception:
-                    pass
-                finally:
-                    self.in_user = False
-                self.restart("intact")
+                    self._run_token(tok)
+                    break
+                except Crash:
+                    self.rec.ev("Crash", step=self.rec.step, post=self.trees())
+                    self.cur_mgr = ""
+                    self.stopped = True
+                    self.inj = None
+                    self.in_user = True
+                    try:
+                        self.cs.done()
+                    except Exception:
+                        pass
+                    finally:
+                        self.in_user = False
+                    self.restart("intact")
+                    if k != "Q":            # a single step dies with the process; a run-to-quiet is resumed
+                        break
         return self.rec.events
+
+    def _run_token(self, tok):
+        k = tok[0]
+        if self.stopped and k in ("EL", "ER", "S", "Q", "AQ"):
+            if k in ("Q", "AQ"):
+                self.restart("intact")
+            else:
+                return
+        if k == "U":
+            self.user(tok[1], tok[2])
+        elif k == "EL":
+            self.intake(0, tok[1] if len(tok) > 1 else 0)
+        elif k == "ER":
+            self.intake(1, tok[1] if len(tok) > 1 else 0)
+        elif k == "S":
+            self.sync()
+        elif k == "T":
+            self.tick(tok[1])
+        elif k == "Q":
+            self.quiesce()
+        elif k == "X":
+            self.stop_engine()
+        elif k == "R":
+            self.restart(tok[1] if len(tok) > 1 else "intact")
+        elif k == "F":
+            self.inj = {"n": 0, "nmut": 0, "fail_at": tok[1], "kind": tok[2]}
+        elif k == "K":
+            self.inj = self.inj or {"n": 0, "nmut": 0}
+            if tok[1] == "storage":
+                self.inj["crash_before_sw"] = (self.storage.nwrites if self.storage else 0) + tok[2]
+            else:
+                self.inj["crash_after_pw"] = self.inj["nmut"] + tok[2]
+        elif k == "C":
+            cp = self.names.decode(tok[1], tok[2])
+            co = self.eng[tok[1]]._mock_fs.get(self.eng[tok[1]].normalize_path(cp))
+            if co is not None and co.exists and co.contents is not None:
+                self.eng[tok[1]].corrupt_paths[cp] = co.contents
+            self.rec.ev("Corrupt", side=tok[1], path=tok[2])
+        elif k == "AQ":
+            self.after_quiet()
+        else:
+            raise MachineryError("unknown token %r" % (tok,))
